@@ -39,12 +39,17 @@ def do_import(prop, src, n):
     print("imported", name)
 
 
+PENDING_ONLY = False
+
+
 def do_run(match, checks, tier, tests=True, seeds=(None,)):
     for name in sorted(os.listdir(SEEDED)):
         d = os.path.join(SEEDED, name)
         if not os.path.isdir(d) or (match and match not in name):
             continue
         meta = json.load(open(os.path.join(d, "meta.json")))
+        if PENDING_ONLY and meta.get("ran"):
+            continue
         prop = meta["breaks_property"]
         tmp = tempfile.mkdtemp(prefix="pgf-seed-")
         try:
@@ -106,6 +111,9 @@ if __name__ == "__main__":
             elif args[i] == "--tier":
                 tier = args[i + 1]
                 i += 2
+            elif args[i] == "--pending":
+                PENDING_ONLY = True
+                i += 1
             elif args[i] == "--no-tests":
                 tests = False
                 i += 1
